@@ -70,7 +70,8 @@ func (e *bcEngine) Gen(rng *rand.Rand, tier string, n int, emit func(string)) {
 	emit("conn cancel:0")
 	emit("conn eof")
 	emit("conn ack:0:5 pub:1:3")
-	emit("conn ack:0:6 pub:1:3 pa:3 eof") // reserved return codes are refusals too
+	emit("conn ack:0:0 pub:2:5 pr:5 pr:5 pc:5 pub:2:6 pr:6 pr:6 pr:6 pc:6") // duplicate PUBRECs between PUBREL and PUBCOMP
+	emit("conn ack:0:6 pub:1:3 pa:3 eof")                                   // reserved return codes are refusals too
 	// inbound and outbound exchanges that happen to use the same packet identifier (the two directions have separate identifier spaces)
 	emit("conn ack:0:0 pub:2:5 pr:5 in:2:5 pc:5 rel:5 in:1:5 pub:1:5 pa:5")
 	emit("conn ack:0:0 in:2:5 pub:2:5 pr:5 pc:5 rel:5 rel:5")
